@@ -202,14 +202,33 @@ def check_result_constructor(ctx: Ctx):
 
 
 def check_zero_helper(ctx: Ctx):
+    """R08.4: the zero-instance helper, run on SYMBOLIC instance counts.  Its paths split on
+    comparisons of the counts with small integer constants; every path's result is evaluated on
+    the grid of counts {0,1,2,3,7}^2 restricted to the points that satisfy the path's decisions
+    (exhaustive for comparisons with constants <= 3, which is verified).  For each point: an empty
+    side must yield a result object with tp 0, empty lists and the pair's own counts and arrays;
+    a pair with instances on both sides must be passed through."""
+    from ..poly import Poly, Rat
+    from .c02 import RatInterp, _rat
+
     prog = ctx.prog
     f = prog.func("panoptica_evaluator:_handle_zero_instances_cases")
     metrics = metric_objs(prog)
     pcls = prog.cls("utils.processing_pair:MatchedInstancePair")
-    ps = {p.name for p in f.call_params}
     rinit = prog.cls("panoptica_result:PanopticaResult").lookup("__init__")
-    for p, r in [(0, 0), (0, 5), (3, 0), (3, 5), (1, 1)]:
-        pair = Obj(pcls, {"n_prediction_instance": p, "n_reference_instance": r, "_prediction_arr": Sym("PRED_ARR"), "_reference_arr": Sym("REF_ARR")})
+    NP, NR = Rat(Poly.var("n_pred")), Rat(Poly.var("n_ref"))
+    GRID = [0, 1, 2, 3, 7]
+
+    class ZeroRatInterp(RatInterp):
+        def external_call(self, name, args, kwargs, node):
+            if name.endswith("PanopticaResult") or name.endswith("PanopticaResult.__init__"):
+                return Tagged("PanopticaResult", args, kwargs)
+            return super().external_call(name, args, kwargs, node)
+
+    holder = []
+
+    def make(prefix):
+        pair = Obj(pcls, {"n_prediction_instance": NP, "n_reference_instance": NR, "_prediction_arr": Sym("PRED_ARR"), "_reference_arr": Sym("REF_ARR")})
         args = {}
         for prm in f.call_params:
             n = prm.name.lower()
@@ -221,26 +240,66 @@ def check_zero_helper(ctx: Ctx):
                 args[prm.name] = Sym("GLOBAL_METRICS")
             elif "metric" in n:
                 args[prm.name] = metrics[:3]
-        its = []
+        it = ZeroRatInterp(prog, f, dict(args), metrics=metrics, prefix=prefix)
+        it.root.no_inline = {rinit.qual}
+        holder.append(pair)
+        return it
 
-        def make(prefix, args=args):
-            it = ZeroInterp(prog, f, dict(args), metrics=metrics, prefix=prefix)
-            it.root.no_inline = {rinit.qual}
-            its.append(it)
-            return it
+    outs = enumerate_paths(make)
 
-        outs = enumerate_paths(make)
-        construct = f"{f.qual}:class(n_pred={p},n_ref={r})"
-        for o in outs:
-            if o.decisions or o.kind != "return":
-                ctx.decide("R08.4", f, o.node, construct, "zero-instance helper evaluable", None if o.decisions else False, {"outcome": o.kind, "exc": o.exc})
-                continue
+    def value_at(v, p, r):
+        """concrete value of a symbolic count expression at the grid point (None: not a number)"""
+        try:
+            q = _rat(v).subst({"n_pred": Poly.const(p), "n_ref": Poly.const(r)})
+        except TypeError:
+            return None
+        if q.is_poly() and q.as_poly().is_const():
+            return q.as_poly().const_value()
+        return None
+
+    def holds(pv, d, p, r):
+        opn, diff = pv
+        c = value_at(diff, p, r)
+        if c is None:
+            return None
+        res = {"Eq": c == 0, "NotEq": c != 0, "Lt": c < 0, "LtE": c <= 0, "Gt": c > 0, "GtE": c >= 0}.get(opn)
+        return None if res is None else (res == bool(d))
+
+    covered = set()
+    for o, pair in zip(outs, holder):
+        dtxt = "; ".join(f"{norm(nd) if isinstance(nd, ast.AST) else '?'}={d}" for nd, v, d in o.decisions)
+        construct = f"{f.qual}" + (f"[{dtxt}]" if dtxt else "")
+        pvs = []
+        modelled = True
+        for nd, v, d in o.decisions:
+            pv = getattr(v, "pv", None)
+            if not pv or not isinstance(pv[1], Rat) or not pv[1].is_poly() or not pv[1].as_poly().is_linear() or abs(pv[1].as_poly().const_value() if hasattr(pv[1].as_poly(), "const_value") and pv[1].as_poly().is_const() else 0) > 3:
+                modelled = False
+            else:
+                consts = [abs(c) for m, c in pv[1].as_poly().terms.items() if not m]
+                if any(c > 3 for c in consts):
+                    modelled = False
+            pvs.append((pv, d))
+        if not modelled:
+            ctx.undecided("R08.4", f, o.node, construct, "zero-instance helper splits on a condition that is not a comparison of the counts with a small constant")
+            continue
+        points = [(p, r) for p in GRID for r in GRID if all(holds(pv, d, p, r) for pv, d in pvs)]
+        if not points:
+            continue  # infeasible combination of decisions
+        if o.kind != "return":
+            ctx.violated("R08.4", f, o.node, construct, f"zero-instance helper ends with {o.kind} {o.exc or ''} for instance counts {points[0]}", {"counts (n_pred, n_ref)": points[:4]})
+            continue
+        for p, r in points:
+            covered.add((p, r))
+        bad = {}
+        v = o.value
+        for p, r in points:
             if p > 0 and r > 0:
-                ctx.decide("R08.4", f, o.node, construct, "non-empty pair is passed through unchanged", o.value is pair, {"got": repr(o.value)})
+                if v is not pair:
+                    bad.setdefault("a pair with instances on both sides is passed through unchanged", []).append((p, r))
                 continue
-            v = o.value
             if not (isinstance(v, Tagged) and v.name.endswith("PanopticaResult")):
-                ctx.violated("R08.4", f, o.node, construct, "an empty side does not produce a result object (matching/evaluation would run on an empty side)", {"got": repr(v)})
+                bad.setdefault("an empty side produces a result object (no matching/evaluation on an empty side)", []).append((p, r))
                 continue
             kw = dict(v.kwargs)
             names = [x.name for x in rinit.call_params]
@@ -250,17 +309,26 @@ def check_zero_helper(ctx: Ctx):
             lm = kw.get("list_metrics")
             ok_lists = isinstance(lm, dict) and len(lm) == 3 and all(val == [] for val in lm.values()) and all(any(k is m or k == Sym(f"Metric.{m.attrs['_name_']}") for k in lm) for m in metrics[:3])
             checks = [
-                ("tp", kw.get("tp") == 0, "tp is 0"),
-                ("num_pred_instances", kw.get("num_pred_instances") == p, "number of prediction instances passed uncrossed"),
-                ("num_ref_instances", kw.get("num_ref_instances") == r, "number of reference instances passed uncrossed"),
-                ("list_metrics", ok_lists, "an empty list per evaluated metric"),
-                ("prediction_arr", kw.get("prediction_arr") == Sym("PRED_ARR"), "prediction array passed uncrossed"),
-                ("reference_arr", kw.get("reference_arr") == Sym("REF_ARR"), "reference array passed uncrossed"),
-                ("edge_case_handler", kw.get("edge_case_handler") == Sym("ECH"), "configured edge-case handler passed on"),
-                ("global_metrics", kw.get("global_metrics") == Sym("GLOBAL_METRICS"), "global metric selection passed on"),
+                ("tp is 0", value_at(kw.get("tp"), p, r) == 0),
+                ("number of prediction instances passed uncrossed", value_at(kw.get("num_pred_instances"), p, r) == p),
+                ("number of reference instances passed uncrossed", value_at(kw.get("num_ref_instances"), p, r) == r),
+                ("an empty list per evaluated metric", ok_lists),
+                ("prediction array passed uncrossed", kw.get("prediction_arr") == Sym("PRED_ARR")),
+                ("reference array passed uncrossed", kw.get("reference_arr") == Sym("REF_ARR")),
+                ("configured edge-case handler passed on", kw.get("edge_case_handler") == Sym("ECH")),
+                ("global metric selection passed on", kw.get("global_metrics") == Sym("GLOBAL_METRICS")),
             ]
-            for k, ok, desc in checks:
-                ctx.decide("R08.4", f, o.node, construct + ":" + k, desc, bool(ok), {"got": repr(kw.get(k))})
+            for desc, ok in checks:
+                if not ok:
+                    bad.setdefault(desc, []).append((p, r))
+        kinds = sorted({("both" if p > 0 and r > 0 else "none" if p == r == 0 else "empty-pred" if p == 0 else "empty-ref") for p, r in points})
+        if bad:
+            for desc, pts in bad.items():
+                ctx.violated("R08.4", f, o.node, construct + ":" + desc.split()[0], desc, {"counts (n_pred, n_ref)": pts[:4]})
+        else:
+            ctx.ok("R08.4", f, o.node, construct, f"zero-instance helper correct for the count classes {kinds} of this path", {"grid_points": len(points)})
+    missing = [(p, r) for p in GRID for r in GRID if (p, r) not in covered]
+    ctx.decide("R08.4", f, f.node, f"{f.qual}:coverage", "every combination of instance counts on the grid is handled by an evaluable path", not missing, {"unhandled": missing[:6]})
 
 
 class ZeroInterp(ResultInterp):
